@@ -115,7 +115,7 @@ pub fn check_case(ctx: &Ctx, case: &Case, t: &mut Tally, with_cli: bool) {
     // process level: the CLI default (simplified) against -F (full)
     if with_cli {
         if let Some(bin) = &ctx.cli_debug {
-            cli_pair(bin, case, t);
+            cli_pair(bin, case, &rf, t);
         }
     }
     if stripped.wdata.len() < fac.wdata.len() && carriers_of(&f1).len() >= 2 {
@@ -129,7 +129,7 @@ pub fn check_case(ctx: &Ctx, case: &Case, t: &mut Tally, with_cli: bool) {
     }
 }
 
-fn cli_pair(bin: &std::path::Path, case: &Case, t: &mut Tally) {
+fn cli_pair(bin: &std::path::Path, case: &Case, rf: &crate::refmodel::RefOut, t: &mut Tally) {
     use crate::case::FacChoice;
     let dir = cli::scratch_dir("c08");
     let cpath = dir.join("c.csv");
@@ -189,7 +189,7 @@ fn cli_pair(bin: &std::path::Path, case: &Case, t: &mut Tally) {
         // compare the plain reports number by number
         let rep = |s: &str| -> String { s.split("** Eficiencia energética").nth(1).unwrap_or("").to_string() };
         let (a, b) = (rep(&r1.stdout), rep(&r2.stdout));
-        if a.is_empty() || !cli::reports_equal(&a, &b, 0.011) {
+        if a.is_empty() || !cli::reports_equal(&a, &b, report_slack(rf)) {
             t.violation("C08.cli_report_changes", "the report printed with simplified factors differs from the one printed with -F".into(), || {
                 let mut w = wit();
                 w["report_default"] = json!(a);
